@@ -43,6 +43,13 @@ func (rc *recipe) E(i int) *big.Int {
 		if i%3 == 0 {
 			return big.NewInt(0)
 		}
+	case "collide":
+		// K = A buckets, each hit three times in index order: +P, +P (doubling), -P (cancellation)
+		k := int(rc.A.Int64())
+		if (i/k)%3 < 2 {
+			return new(big.Int).Set(rc.B)
+		}
+		return rc.mod(new(big.Int).Sub(rc.r, rc.B))
 	}
 	return lin
 }
@@ -72,6 +79,9 @@ func (rc *recipe) S(i int) *big.Int {
 		return rc.mod(new(big.Int).Mul(big.NewInt(int64(i%3+1)), rc.D))
 	case "small":
 		return big.NewInt(int64(i % 7))
+	case "collide":
+		k := int(rc.A.Int64())
+		return rc.mod(new(big.Int).Mul(big.NewInt(int64(i%k+1)), rc.D))
 	}
 	return lin
 }
@@ -227,6 +237,23 @@ func runC04(args []string) {
 			full := name == "bn254" || *tier == "thorough"
 			mk := func(pat string, n int, cwin int) *recipe {
 				rc := &recipe{pat: pat, n: n, A: r.Below(rq), B: r.Below(rq), C: r.Below(rq), D: r.Below(rq), r: rq}
+				if pat == "collide" {
+					// digit (i mod K)+1 in every window; K buckets >= the batch-affine threshold of the window
+					if cwin == 0 {
+						cwin = 10
+					}
+					k := 700
+					if (1<<(cwin-1))-2 < k {
+						k = (1 << (cwin - 1)) - 2
+					}
+					rc.A = big.NewInt(int64(k))
+					rc.n = 3 * k
+					d := new(big.Int)
+					for j := 0; j < rq.BitLen()-2*cwin; j += cwin {
+						d.SetBit(d, j, 1)
+					}
+					rc.D = d
+				}
 				if pat == "few" {
 					// repunit with period cwin: every window of every scalar hits one of three buckets
 					d := new(big.Int)
@@ -296,7 +323,7 @@ func runC04(args []string) {
 				if !implemented {
 					continue
 				}
-				for _, pat := range []string{"lin", "few", "onehot", "pm", "inf"} {
+				for _, pat := range []string{"lin", "few", "onehot", "pm", "inf", "collide", "same"} {
 					n := 300
 					if cw >= 10 {
 						n = 1500 // enough filled buckets for the batch-affine processor (c=10: 80 ... c=16: 640)
@@ -304,7 +331,7 @@ func runC04(args []string) {
 					if gn == "G2" && !full {
 						n = n / 3
 					}
-					if !full && pat != "lin" && pat != "few" {
+					if !full && pat != "lin" && pat != "few" && pat != "collide" {
 						continue
 					}
 					rc := mk(pat, n, cw)
